@@ -8,6 +8,10 @@ Driver module "c10" (serves C10 and C11).
   c10 cuts <initSize> <pageSize> <ops>
       → ok <cut0>;<cut1>;…   cut k = the file system after the first k effects of the history
         cut = <effect just applied>,<file>,<file reader>,<reopen>,<spec classification>
+  c10 cont <initSize> <pageSize> <ops> <k> <ops2>
+      → ok <obs0>;<obs1>;…   a NEW writer opens the file left behind after the first k effects of the history `ops` and
+        runs the continuation `ops2`; observations as for `hist` (obs0 = after the constructor; the spec column starts
+        from what the reopened store holds); `ok absent` when there is no file yet
   c10 readfile <pageSize> x:<hex>           → the file reader on arbitrary bytes
   c10 open <initSize> x:<hex>               → the constructor on arbitrary bytes, then read_all_values()
   c10 padded <n>                            → reader's padded_len, writer's pad count
@@ -145,6 +149,23 @@ def handle : List String → String
         "ok " ++ ";".intercalate (cutsLoop initSize pageSize sops none effs [showCut initSize pageSize sops "-" none])
       | .error e => "err " ++ e.name
     | _, _, _ => "err bad-field"
+  | ["cont", isz, psz, opsF, kF, contF] =>
+    match isz.toNat?, psz.toNat?, decOps opsF, kF.toNat?, decOps contF with
+    | some initSize, some pageSize, some ops, some k, some cont =>
+      match run initSize ops with
+      | .ok ((_, effs) : MmapedDict × List Effect) =>
+        match applyEffects none (effs.take k) with
+        | none => "ok absent"
+        | some file =>
+          match init initSize file with
+          | .ok (d0, _) =>
+            let s0 : Spec.MmapDict.Store := match readAllValues d0 with
+              | .ok xs => xs
+              | .error _ => []
+            "ok " ++ ";".intercalate (histLoop initSize pageSize d0 s0 cont [obs pageSize d0 s0 "-"])
+          | .error e => "ok !" ++ e.name
+      | .error e => "err " ++ e.name
+    | _, _, _, _, _ => "err bad-field"
   | ["readfile", psz, x] =>
     match psz.toNat?, decBytes x with
     | some pageSize, some bs => "ok " ++ showItems (readAllValuesFromFile pageSize bs)
